@@ -68,10 +68,16 @@ SPEC = dict(
          "Gaussian; fillArray; mid-stream setSeed/setMin/setMax; interleaved objects; direct SFMT gen_rand32/64, "
          "fill_array32/64 (sizes below and above 2N), mixed; published known answer; boundary raw words; "
          "distinct = distinct input records",
-    partial="mean/variance are measured numbers with 5-sigma predicates on 1e5 samples (no theorem about the distribution); "
-            "the Gaussian values use libm log/sqrt (parameters of the model; compared at 1e-13 relative); "
-            "equality of the fill_array64-buffered stream with the sequential gen_rand64 stream is checked by execution "
-            "(model and implementation), not proved",
+    partial="(i) proved about the executed model: parameters = published set (translator), to_res53 in [0,1] and <1 iff raw<2^64-2^10, "
+            "real and integer range over Q for the model's getValue/getIntValue, history-independence of the streams after setSeed, "
+            "Gaussian domain, period certification; binary64 range: refuted at witnesses (F8). "
+            "(ii) predicate-only: lower bound min<=value in binary64; mean/variance (5-sigma on 1e5 normalised samples; tiny lattice ranges "
+            "excluded) and integer-mode bucket chi-square (no theorem about the distribution); 'reproduces the reference SFMT output' beyond "
+            "the parameters: the library equals an independent SFMT-19937 written from the published recurrence over >=6000 words per run "
+            "(32-bit, 64-bit, fill_array32, public Uniform stream) and the five published words of seed 1234 - the published file itself is not "
+            "embedded; fill_array-buffered stream = sequential stream by execution. "
+            "(iii) not covered: default-constructor seeding (++nextSeed), Gaussian::setMean/setStdDev, min>=max, stddev<=0; the Gaussian "
+            "values use libm log/sqrt (model parameters; compared at 1e-13 relative)",
     assumptions=["standard-C code path of SFMT.cpp (no HAVE_SSE2/HAVE_ALTIVEC, little endian), x87 long double in to_res53 "
                  "(the product v*2^-64 is exact, one rounding to binary64)",
                  "integer mode is exercised with integer-valued min<max inside the int range"],
